@@ -138,6 +138,10 @@ def first_order_match(pat, t, inst=None):
                 if heuristic_match:
                     # Heuristic matching: just assign pat.fun to t.fun.
                     if t.is_comb():
+                        # As for a bare variable: what is assigned must not
+                        # contain bound variables of the enclosing abstractions.
+                        if bd_vars and t.fun.has_vars(bd_vars):
+                            raise MatchException(trace)
                         try:
                             pat.head.T.match_incr(t.fun.get_type(), inst.tyinst)
                         except TypeMatchException:
